@@ -247,6 +247,21 @@ fn norm(s: String) -> String {
 
 fn table_case(rep: &mut Report, ci: usize, case: &Value, all: bool) {
     let kw = case["kw"].as_str().unwrap();
+    if kw == "v" {
+        // `v` takes the current point as its first control point (Table 59): after `h` that is the point the subpath
+        // began with, after `re` the rectangle's corner (x, y) - `re` stands for `x y m ... h`
+        for (tag, text, want) in [("after-h", "0 0 m 10 0 l 10 10 l h 5 5 20 20 v", (0.0f32, 0.0f32)),
+                                  ("after-re", "1 2 3 4 re 5 5 20 20 v", (1.0, 2.0)),
+                                  ("after-l", "0 0 m 10 0 l 10 10 l 5 5 20 20 v", (10.0, 10.0))] {
+            rep.execs += 1;
+            let got = guarded(|| parse_ops(text.as_bytes(), &NoResolve));
+            let ok = match &got { Outcome::Done(Ok(ops)) => matches!(ops.last(), Some(Op::CurveTo { c1, .. }) if c1.x == want.0 && c1.y == want.1), _ => false };
+            if !ok {
+                let obs = match got { Outcome::Done(Ok(ops)) => json!(ops.iter().map(|o| format!("{:?}", o)).collect::<Vec<_>>()), Outcome::Done(Err(e)) => err_json(&e), Outcome::Panic(p) => panic_json(&p) };
+                rep.fail(&format!("table:v:current-point-{}", tag), json!({"case_index": ci, "case": case, "text": text, "expected_c1": [want.0, want.1], "observed": obs}));
+            }
+        }
+    }
     if kw == "Tr" {
         // the operand of Tr is one of the eight rendering modes of Table 106: each parses to the mode with that number
         for n in 0..8u8 {
